@@ -18,6 +18,10 @@ type c03Case struct {
 	Answer world.Answer `json:"answer"`
 	Target string       `json:"target"`
 	Tail   []int        `json:"tail_advances_s"`
+	// Before: what this browser did earlier (it keeps its cookie): "" nothing | "abandoned-login" asked for another
+	// URL, was sent to the provider and never went there | "abandoned-login-x2" twice | "logged-out" completed a login
+	// for another URL and logged out
+	Before string `json:"before,omitempty"`
 }
 
 var c03Targets = []string{"/", "/a%20b/c%2Fd?x=1&y=%2F", "/a/b", "/p?next=https%3A%2F%2Fe.com%2F%3Fa%3Db", "/s;v=1/@:,", "/docs/100%25/r%C3%A9sum%C3%A9.pdf", "/a?x=1&y=%2F"}
@@ -64,8 +68,43 @@ func c03Flow(c c03Case) (string, int) {
 	fail := func(sig, msg string) (string, int) { return sig + "\x00" + msg, steps }
 	ans := c.Answer
 	plan := world.Plan{Answer: &ans}
+	// 0. earlier life of this browser
+	cookie0 := ""
+	switch c.Before {
+	case "abandoned-login", "abandoned-login-x2":
+		n := 1
+		if c.Before == "abandoned-login-x2" {
+			n = 2
+		}
+		for k := 0; k < n; k++ {
+			r0 := w.Do(world.Req{Path: fmt.Sprintf("/elsewhere/%d?tab=alerts", k), Cookie: cookie0}, plan)
+			steps++
+			if ns := w.SessionFromSetCookie(r0); ns != "" && ns != "deleted" {
+				cookie0 = ns
+			}
+		}
+	case "logged-out":
+		r0 := w.Do(world.Req{Path: "/elsewhere?tab=alerts"}, plan)
+		cookie0 = w.SessionFromSetCookie(r0)
+		if cb0, _, err := w.IdP.Authorize(r0.Location); err == nil {
+			rc := w.Do(world.Req{Path: strings.TrimPrefix(cb0, "https://app.test"), Cookie: cookie0}, plan)
+			if ns := w.SessionFromSetCookie(rc); ns != "" && ns != "deleted" {
+				cookie0 = ns
+			}
+			w.Do(world.Req{Path: world.LogoutPath, Cookie: cookie0}, plan)
+			steps += 3
+		}
+	}
+	authz0, exch0 := len(w.IdP.AuthzReqs), 0
+	for _, tr := range w.IdP.TokenReqs {
+		if tr.Grant == "authorization_code" {
+			exch0++
+		}
+	}
+	tokReq0 := len(w.IdP.TokenReqs)
+	t0 := w.Now()
 	// 1. unauthenticated request
-	r1 := w.Do(world.Req{Path: c.Target}, plan)
+	r1 := w.Do(world.Req{Path: c.Target, Cookie: cookie0}, plan)
 	steps++
 	if r1.Panic != "" || r1.Err != "" {
 		return fail("error-on-first-request", r1.Panic+r1.Err)
@@ -110,16 +149,16 @@ func c03Flow(c c03Case) (string, int) {
 		}
 		if !r.OK {
 			return fail(fmt.Sprintf("not-ok-after-login request#%d %s", i, c03Shape(c)),
-				fmt.Sprintf("request %d after login (t=+%v) answered code=%v http=%d location=%q", i, w.Now().Sub(world.T0), r.Code, r.HTTPStatus, r.Location))
+				fmt.Sprintf("request %d after login (t=+%v) answered code=%v http=%d location=%q", i, w.Now().Sub(t0), r.Code, r.HTTPStatus, r.Location))
 		}
 		// provider's tokens injected
 		var idTok, at string
-		for _, tr := range w.IdP.TokenReqs {
+		for _, tr := range w.IdP.TokenReqs[tokReq0:] {
 			if tr.Grant == "authorization_code" && tr.Answered == 200 {
 				idTok, at = tr.IDToken, tr.Access
 			}
 		}
-		for _, tr := range w.IdP.TokenReqs {
+		for _, tr := range w.IdP.TokenReqs[tokReq0:] {
 			if tr.Grant == "refresh_token" && tr.Answered == 200 {
 				if tr.IDToken != "" {
 					idTok = tr.IDToken
@@ -142,7 +181,7 @@ func c03Flow(c c03Case) (string, int) {
 			return fail("provider-tokens-not-injected", fmt.Sprintf("headers %v", redact(r.Headers)))
 		}
 	}
-	if n := len(w.IdP.AuthzReqs); n != 1 {
+	if n := len(w.IdP.AuthzReqs) - authz0; n != 1 {
 		return fail("sent-to-provider-again", fmt.Sprintf("%d authorization requests reached the provider", n))
 	}
 	nx := 0
@@ -151,7 +190,7 @@ func c03Flow(c c03Case) (string, int) {
 			nx++
 		}
 	}
-	if nx != 1 {
+	if nx -= exch0; nx != 1 {
 		return fail("code-exchanges!=1", fmt.Sprintf("%d code exchanges", nx))
 	}
 	return "", steps
@@ -269,6 +308,31 @@ func c03Run(run *ev.Run) {
 		}
 	}
 	evals += long
+	// browsers with an earlier life: the flow must be the same whatever this browser's cookie points at
+	var hist int64
+	for _, before := range []string{"abandoned-login", "abandoned-login-x2", "logged-out"} {
+		for _, spec := range specs {
+			if len(spec.Scopes) != 1 || (before == "logged-out" && !spec.Logout) {
+				continue
+			}
+			for _, a := range []world.Answer{answers[0], answers[len(answers)/2], answers[len(answers)-1]} {
+				for _, tg := range targets {
+					c := c03Case{Answer: a, Spec: spec, Target: tg, Tail: tail[:1], Before: before}
+					res, n := c03Flow(c)
+					hist++
+					steps += int64(n)
+					if res != "" {
+						sig, msg, _ := strings.Cut(res, "\x00")
+						run.Violation("C03 "+sig+" before="+before, msg, c)
+					} else {
+						run.Class(fmt.Sprintf("before=%s|%s|store=%s|logout=%v", before, c03Shape(c), spec.Store, spec.Logout))
+					}
+				}
+			}
+		}
+	}
+	evals += hist
+	run.Extra["flows_with_earlier_life"] = hist
 	// server level: real loader + factory + Check + trigger rules (serial: one in-memory network per process)
 	var srv int64
 	srvAnswers := answers
